@@ -8,7 +8,7 @@ Local Open Scope N_scope.
 
 Definition ctx0 (args : list rv) : ctx :=
   {| c_args := args; c_elem := None; c_value := None; c_base := None; c_payload := None;
-     c_wasm_results := []; c_iface_result := None |}.
+     c_wasm_results := []; c_callee := None; c_iface_result := None |}.
 Definition st0 (env : list (nat * rv)) (m : mstate) : st := {| env := env; ms := m; trace := [] |}.
 
 Fixpoint val_eqb (a b : val) {struct a} : bool :=
@@ -193,6 +193,153 @@ Section check.
         | RErr (ELedger _ _ _) => Fail 5
         | RErr _ => Fail 1
         | ROk s => if match allocs (ms s) with [] => true | _ => false end then Pass else Fail 6
+        end
+    end.
+
+  (** ** C02: the call glue, for the combinations real backends use *)
+  Definition params_ty (fn : func) : ty := TTuple (f_params fn).
+  Definition flat_len (t : ty) : nat := length (Spec.flatten pw t).
+  Definition params_flat_len (fn : func) : nat := length (concat (map (Spec.flatten pw) (f_params fn))).
+
+  Fixpoint vals_eqb (a b : list val) : bool :=
+    match a, b with
+    | [], [] => true
+    | x :: a', y :: b' => val_eqb x y && vals_eqb a' b'
+    | _, _ => false
+    end.
+
+  Fixpoint find_effect {A} (f : effect -> option A) (tr : list effect) : list A :=
+    match tr with
+    | [] => []
+    | e :: tr' => match f e with Some a => (find_effect f tr' ++ [a])%list | None => find_effect f tr' end
+    end.   (* chronological *)
+
+  Definition nlist_eqb (a b : list N) : bool :=
+    (length a =? length b)%nat && forallb (fun '(x, y) => N.eqb x y) (combine a b).
+
+  (** (A) a guest calls an IMPORT synchronously: GuestImport, LowerArgsLiftResults, async = false.
+      args are the interface values; exactly one CallWasm, whose core arguments are the spec's flat lowering of
+      the parameters (or one pointer to the spec's store of the parameter record), plus the return pointer when
+      the result is returned through memory; the function then returns exactly the callee's result value. *)
+  Definition check_call_import (fn : func) (args : list val) (result : option val) (evs : list event) : verdict :=
+    let m0 := mstate0 BASE in
+    let callee (sg : wsig) (xs : list N) (m : mstate) : option (list N * mstate) :=
+      match f_result fn, result with
+      | Some t, Some rv =>
+          if s_retptr sg then
+            match rev xs with
+            | p :: _ => match Spec.store pw t rv p m with Some m' => Some ([], m') | None => None end
+            | [] => None
+            end
+          else match Spec.lower_flat pw t rv m with Some (cs, m') => Some (map snd cs, m') | None => None end
+      | None, None => Some ([], m)
+      | _, _ => None
+      end in
+    let c := {| c_args := map RV args; c_elem := None; c_value := None; c_base := None; c_payload := None;
+                c_wasm_results := []; c_callee := Some callee; c_iface_result := None |} in
+    match run_events pw evs c (st0 [] m0) with
+    | RErr _ => Fail 1
+    | ROk s =>
+        let calls := find_effect (fun e => match e with FCallWasm sg xs => Some (sg, xs) | _ => None end) (trace s) in
+        let rets := find_effect (fun e => match e with FReturn vs => Some vs | _ => None end) (trace s) in
+        match calls, rets with
+        | [(sg, xs)], [vs] =>
+            let indirect := (16 <? params_flat_len fn)%nat in
+            let nparams := if indirect then 1%nat else params_flat_len fn in
+            let pxs := firstn nparams xs in
+            let params_ok :=
+              if indirect then
+                match pxs with
+                | [p] => match Spec.load pw (params_ty fn) (mem (ms s)) p with
+                         | Some (VRec vs') => vals_eqb vs' args
+                         | _ => false
+                         end
+                | _ => false
+                end
+              else
+                match Spec.lower_flat pw (params_ty fn) (VRec args) m0 with
+                | Some (cs, _) => nlist_eqb pxs (map snd cs)
+                | None => false
+                end in
+            let ret_ok := match result, vs with
+                          | Some rv, [RV x] => val_eqb x rv
+                          | None, [] => true
+                          | _, _ => false
+                          end in
+            if negb params_ok then Fail 11 else if negb ret_ok then Fail 12
+            else if negb (Bool.eqb (s_indirect sg) indirect) then Fail 13
+            else if negb (length xs =? nparams + (if s_retptr sg then 1 else 0))%nat then Fail 14
+            else Pass
+        | _, _ => Fail 15       (* not exactly one core call and one return *)
+        end
+    end.
+
+  (** (B)/(C) the host calls a guest EXPORT: GuestExport, LiftArgsLowerResults, sync (Return) or
+      GuestExportAsync/GuestExport with async = true (task.return).  Core arguments come from the spec's lowering
+      with caller-owned buffers (in the ledger); exactly one CallInterface receiving exactly the values; the
+      result leaves as the spec's flat lowering, or through a pointer where the spec's load finds it; a
+      caller-allocated parameter record is freed exactly once. *)
+  Definition check_call_export (fn : func) (args : list val) (result : option val) (is_async : bool)
+             (evs : list event) : verdict :=
+    let indirect := (16 <? params_flat_len fn)%nat in
+    let a := BASE in
+    let m0 := mstate0 (a + elem_size pw (params_ty fn)) in
+    let prepared :=
+      if indirect then
+        match Spec.store pw (params_ty fn) (VRec args) a m0 with
+        | Some m => Some ([RC a],
+                          {| mem := mem m; next := next m;
+                             allocs := (allocs m ++ [(a, elem_size pw (params_ty fn), alignment pw (params_ty fn))])%list;
+                             presets := presets m |})
+        | None => None
+        end
+      else
+        match Spec.lower_flat pw (params_ty fn) (VRec args) m0 with
+        | Some (cs, m) => Some (map (fun c => RC (snd c)) cs, m)
+        | None => None
+        end in
+    match prepared with
+    | None => Skip
+    | Some (cargs, m) =>
+        let c := {| c_args := cargs; c_elem := None; c_value := None; c_base := None; c_payload := None;
+                    c_wasm_results := []; c_callee := None; c_iface_result := result |} in
+        match run_events pw evs c (st0 [] m) with
+        | RErr (ELedger _ _ _) => Fail 5
+        | RErr _ => Fail 1
+        | ROk s =>
+            let calls := find_effect (fun e => match e with FCallInterface vs => Some vs | _ => None end) (trace s) in
+            let rets := find_effect (fun e => match e with
+                                              | FReturn vs => Some (all_c vs)
+                                              | FTaskReturn _ xs => Some (ROk xs)
+                                              | _ => None end) (trace s) in
+            let frees := find_effect (fun e => match e with FFree p sz al => Some (p, sz) | _ => None end) (trace s) in
+            match calls, rets with
+            | [vs], [ROk xs] =>
+                if negb (vals_eqb vs args) then Fail 11 else
+                let res_ok :=
+                  match f_result fn, result with
+                  | None, None => match xs with [] => true | _ => false end
+                  | Some t, Some rv =>
+                      let limit := if is_async then 16%nat else 1%nat in
+                      if (flat_len t <=? limit)%nat then
+                        (* flat: the allocation addresses depend on where the bump pointer stands; decode instead *)
+                        match Spec.lift_flat pw t (mem (ms s)) (combine (Spec.flatten pw t) xs) with
+                        | Some (x, []) => val_eqb x rv && (length xs =? flat_len t)%nat
+                        | _ => false
+                        end
+                      else
+                        match xs with
+                        | [p] => match Spec.load pw t (mem (ms s)) p with Some x => val_eqb x rv | None => false end
+                        | _ => false
+                        end
+                  | _, _ => false
+                  end in
+                if negb res_ok then Fail 12
+                else if indirect && negb is_async
+                        && negb (length (filter (fun '(p, sz) => N.eqb p a) frees) =? 1)%nat then Fail 16
+                else Pass
+            | _, _ => Fail 15
+            end
         end
     end.
 
